@@ -37,9 +37,10 @@ const (
 	chatty
 	aliveNotAnswering
 	aliveSlowHandler // like aliveNotAnswering, but the local data handler blocks past T6 (life = frame ARRIVAL)
+	slowAfterRetune  // T6 is widened on the LIVE connection (UpdateConfigOptions); the peer then answers every probe later than the old T6 but well within the new one
 )
 
-var kindName = []string{"silent", "answering", "slow-but-alive", "chatty", "alive-not-answering", "alive-slow-handler"}
+var kindName = []string{"silent", "answering", "slow-but-alive", "chatty", "alive-not-answering", "alive-slow-handler", "slow-after-live-T6-retune"}
 
 type peer struct {
 	conn      net.Conn
@@ -48,6 +49,7 @@ type peer struct {
 	interval  time.Duration
 	t6        time.Duration
 	wmu       sync.Mutex
+	slowFrom  atomic.Int64 // slowAfterRetune: probes with this index or later are answered slowly (0 = none yet)
 	probes    atomic.Int64 // Linktest.req received
 	selectedT atomic.Int64 // unix nanos when Select.rsp had been written
 	closedT   atomic.Int64 // unix nanos when the read side saw the link end
@@ -132,6 +134,19 @@ func (p *peer) run() {
 			case answering, chatty:
 				rsp, _ := hsms.NewLinktestRsp(cm)
 				_ = p.write(rsp.ToBytes())
+			case slowAfterRetune:
+				n := p.probes.Load()
+				delay := p.t6 / 3
+				if from := p.slowFrom.Load(); from > 0 && n >= from {
+					delay = 2 * p.t6 // later than the construction-time T6, well within the live one (6 x)
+				}
+				extra.Add(1)
+				go func() {
+					defer extra.Done()
+					time.Sleep(delay)
+					rsp, _ := hsms.NewLinktestRsp(cm)
+					_ = p.write(rsp.ToBytes())
+				}()
 			case slowAlive:
 				extra.Add(1)
 				go func() {
@@ -232,6 +247,13 @@ func runScenario(c *vh.Ctx, sc scenario) {
 	mu.Lock()
 	p0 := peers[0]
 	mu.Unlock()
+	if sc.kind == slowAfterRetune {
+		// widen T6 on the live connection; the probe after the next one is certainly sent under the new value
+		if err := conn.UpdateConfigOptions(hsms.WithT6(6 * t6)); err != nil {
+			c.Fail("UpdateConfigOptions(WithT6): "+err.Error(), name)
+		}
+		p0.slowFrom.Store(p0.probes.Load() + 2)
+	}
 	dropped := false
 	if expectDrop {
 		for time.Now().Before(deadline) {
@@ -282,7 +304,7 @@ func runScenario(c *vh.Ctx, sc scenario) {
 			if sc.suppress && suppressedCnt == 0 {
 				c.Fail("suppression on and chatty peer, but the suppressed counter never moved", outcome)
 			}
-		case answering, slowAlive:
+		case answering, slowAlive, slowAfterRetune:
 			if probes == 0 {
 				c.Fail("idle answering peer was never probed", outcome)
 			}
@@ -303,13 +325,16 @@ func runScenario(c *vh.Ctx, sc scenario) {
 func main() {
 	c := vh.New()
 	var scs []scenario
-	for _, k := range []peerKind{silent, answering, slowAlive, chatty, aliveNotAnswering, aliveSlowHandler} {
+	for _, k := range []peerKind{silent, answering, slowAlive, chatty, aliveNotAnswering, aliveSlowHandler, slowAfterRetune} {
 		for _, sup := range []bool{true, false} {
 			ths := []int{1, 2, 3}
 			if c.Tier != "thorough" {
 				ths = []int{1 + c.Rng.Intn(3)}
 				if k == aliveSlowHandler {
 					ths = []int{1, 2}
+				}
+				if k == slowAfterRetune {
+					ths = []int{1, 2} // threshold 1 is the decisive case when suppression is on
 				}
 			}
 			for _, th := range ths {
